@@ -28,6 +28,22 @@ class _ContextFinder(DefaultVisitor):
         self._visit_function(self.func, False)
         return self.ctx_exprs
 
+    def _reads_local(self, e: Expr) -> bool:
+        """Does `e` read a variable defined in this function?  Such an expression
+        cannot move to the top of the body, above that definition, even when
+        its value is statically known (`p = 8; with fp.IEEEContext(p, 32): ...`)."""
+        local_names = self.eval_info.def_use.names()
+        found = False
+
+        class _Reads(DefaultVisitor):
+            def _visit_var(self, v: Var, ctx):
+                nonlocal found
+                if v.name in local_names:
+                    found = True
+
+        _Reads()._visit_expr(e, None)
+        return found
+
     def _visit_context(self, stmt: ContextStmt, ctx: bool):
         return super()._visit_context(stmt, False)
 
@@ -40,6 +56,7 @@ class _ContextFinder(DefaultVisitor):
                 isinstance(v, Context)
                 and not isinstance(e, Var)
                 and not isinstance(e, ForeignVal)
+                and not self._reads_local(e)
             ):
                 self.ctx_exprs.append(e)
 
